@@ -281,6 +281,34 @@ def gen_combo(rng, cfg, kind):
         prev = sid
         s_ad.append(sid)
 
+    # optional second affinely adaptive decision q (own partition, own mask) with a static epigraph g: it makes
+    # rule_var() lay out two coefficient blocks; declared before or after y
+    extra = None
+    if not integer_y and rng.random() < 0.45:
+        dq = rng.randint(1, 2)
+        cq = [[(rng.choice([-1, 1])) * float(3 ** j) * (i + 1) for j in range(n)] for i in range(dq)]
+        wq = [float(rng.randint(1, 3)) for _ in range(dq)]
+        q_first = rng.random() < 0.5
+        if kind == 'dro':
+            s_q = add({'op': 'dvar', 'id': 'q', 'm': 'm', 'shape': [dq]}, [], first=q_first)
+        else:
+            s_q = add({'op': 'ldr', 'id': 'q', 'm': 'm', 'shape': [dq]}, [], first=q_first)
+        s_g = add({'op': 'dvar', 'id': 'g', 'm': 'm', 'shape': [dq]}, [])
+        pq = RefPartition(S)
+        s_adq = []
+        if kind == 'dro':
+            for positions in gen_partition_calls(rng, S):
+                pq.adapt(positions)
+                s_adq.append(add(_adapt_scen_op(rng, ['v', 'q'], labels, intlab, positions, 'F'), [s_q, s_f], role='adapt_q'))
+        maskq, mq = gen_mask_calls(rng, dq, n, [(lo, hi) for _, lo, hi in arrays], [dq])
+        prevq = None
+        for tsel, J in mq:
+            tgt = ['v', 'q'] if tsel is None else ['i', ['v', 'q'], tsel]
+            an, lo, hi = [a_ for a_ in arrays if a_[1] <= J[0] < a_[2]][0]
+            prevq = add({'op': 'adapt', 'tgt': tgt, 'to': zsel(an, [j - lo for j in J])}, [s_q] + s_zs + ([prevq] if prevq else []), role='adapt_aff')
+            s_adq.append(prevq)
+        s_ad = s_ad + s_adq + [s_q, s_g]
+        extra = {'dq': dq, 'cq': cq, 'wq': wq, 'maskq': maskq, 'pq': pq.partition(), 'eq': pq.event_of()}
     # constraints (after every adapt of the decisions they use)
     cons_ids = []
     for i in range(d):
@@ -292,9 +320,23 @@ def gen_combo(rng, cfg, kind):
         add({'op': 'cons', 'id': 'cy%d' % i, 'e': ['>=', yi, ci]}, [s_y, s_t] + s_zs + s_ad, role='cons')
         add({'op': 'cons', 'id': 'ct%d' % i, 'e': ['>=', ti, ['-', yentry(i), lin_c(c[i])]]}, [s_y, s_t] + s_zs + s_ad, role='cons')
         cons_ids += ['cy%d' % i, 'ct%d' % i]
+    if extra:
+        for i in range(extra['dq']):
+            qi = ['i', ['v', 'q'], i]
+            gi = ['i', ['v', 'g'], i]
+            add({'op': 'cons', 'id': 'cq%d' % i, 'e': ['>=', qi, lin_c(extra['cq'][i])]}, [s_y, s_t] + s_zs + s_ad, role='cons')
+            add({'op': 'cons', 'id': 'cg%d' % i, 'e': ['>=', gi, ['-', ['i', ['v', 'q'], i], lin_c(extra['cq'][i])]]}, [s_y, s_t] + s_zs + s_ad, role='cons')
+            cons_ids += ['cq%d' % i, 'cg%d' % i]
     dep_all = [s['sid'] for s in steps]
+    obj_terms = [['t', wts]] + ([['g', extra['wq']]] if extra else [])
+
+    def obj_ast():
+        e_ = ['@', ['c', wts], ['v', 't']]
+        if extra:
+            e_ = ['+', e_, ['@', ['c', extra['wq']], ['v', 'g']]]
+        return e_
     if kind == 'dro':
-        obj_e = ['E', ['@', ['c', wts], ['v', 't']]]
+        obj_e = ['E', obj_ast()]
         if sense_max:
             add({'op': 'obj', 'm': 'm', 'how': 'maxinf', 'e': ['neg', obj_e], 'amb': 'F'}, [s_t, s_f] + s_ad, role='obj')
         else:
@@ -302,13 +344,15 @@ def gen_combo(rng, cfg, kind):
         add({'op': 'st', 'm': 'm', 'ids': cons_ids}, dep_all, role='st')
     else:
         setc = box_set(r[0])
-        obj_e = ['@', ['c', wts], ['v', 't']]
+        obj_e = obj_ast()
         if sense_max:
-            add({'op': 'obj', 'm': 'm', 'how': 'maxmin', 'e': ['neg', obj_e], 'set': setc}, [s_t] + s_zs, role='obj')
+            add({'op': 'obj', 'm': 'm', 'how': 'maxmin', 'e': ['neg', obj_e], 'set': setc}, [s_t] + s_zs + ([s_g] if extra else []), role='obj')
         else:
-            add({'op': 'obj', 'm': 'm', 'how': 'minmax', 'e': obj_e, 'set': setc}, [s_t] + s_zs, role='obj')
+            add({'op': 'obj', 'm': 'm', 'how': 'minmax', 'e': obj_e, 'set': setc}, [s_t] + s_zs + ([s_g] if extra else []), role='obj')
         add({'op': 'st', 'm': 'm', 'ids': cons_ids}, dep_all, role='st')
 
+    if extra and any(s_.get('first') for s_ in steps):
+        steps.sort(key=lambda s_: 0 if s_.get('first') else 1)          # q ahead of y in the canonical order
     order = gen.topo_order(rng, steps, rng.choice(['uniform', 'uniform', 'reverse', 'canonical']))
     for s in order:
         o = dict(s['op'])
@@ -329,12 +373,19 @@ def gen_combo(rng, cfg, kind):
     opt = sum(p[s] * sum(wts[i] * tval[s][i] for i in range(d)) for s in range(S))
     if kind == 'ro':
         opt = sum(wts[i] * tval[0][i] for i in range(d))
+    if extra:
+        Cq = [sum(abs(extra['cq'][i][j]) for j in range(n) if not extra['maskq'][i][j]) for i in range(extra['dq'])]
+        Rq = {s: max(r[k] for k in extra['eq'][s]) for s in range(S)}
+        gval = [max(Cq[i] * (Rq[s] + r[s]) for s in range(S)) for i in range(extra['dq'])]
+        opt += sum(extra['wq'][i] * gval[i] for i in range(extra['dq']))
+        extra['gval'] = gval
+        extra.pop('eq')
     Y = [[c[i][j] if mask[i][j] else None for j in range(n)] for i in range(d)]
     expect = {'opt': -opt if sense_max else opt, 'y0': y0, 't': tval, 'Y': Y, 'C': C,
               'py': py.partition(), 'pt': pt.partition(), 'mask': mask}
     pool = ['def', 'ort', 'grb'] if integer_y else ['def', 'lpg', 'ort', 'grb', 'eco']
     return {'kind': 'combo-' + kind, 'ops': ops, 'steps': steps, 'model_op': ops[0], 'expect': expect, 'labels': labels, 'intlab': intlab, 'S': S,
-            'n': n, 'arrays': arrays, 'd': d, 'yshape': yshape, 'c': c, 'r': r, 'p': p, 'integer_y': integer_y, 'pool': pool, 'sense_max': sense_max}
+            'n': n, 'arrays': arrays, 'd': d, 'yshape': yshape, 'extra': extra, 'obj_terms': obj_terms, 'c': c, 'r': r, 'p': p, 'integer_y': integer_y, 'pool': pool, 'sense_max': sense_max}
 
 
 def gen_mix(rng, cfg):
@@ -791,18 +842,7 @@ def _check_solved(case, it, w, viol, stats, probe, props):
     # model.get() in the user's sense equals the objective expression at the values read back through t()
     stats['checks_c12'] += 1
     try:
-        trow, _ = _call_rows(it.env['t'], S)
-        wts_ = None
-        for o_ in case['ops']:
-            if o_['op'] == 'obj':
-                e_ = o_['e']
-                while e_[0] in ('neg', 'E'):
-                    e_ = e_[1]
-                wts_ = e_[1][1]
-        pr_ = case['p'] if case['kind'] == 'combo-dro' else [1.0]
-        uo = sum(pr_[s] * sum(wts_[i] * float(trow[s][i]) for i in range(d)) for s in range(S))
-        if case.get('sense_max'):
-            uo = -uo
+        uo = _objective_from_readback(case, it, S, d)
         if not close(out['obj'], uo, max(tol, 1e-5)):
             viol('C12', 'get-vs-readback', 'model.get() = %.9g but the objective expression evaluated at the values of t() is %.9g '
                  '(%s model)' % (out['obj'], uo, 'maximisation' if case.get('sense_max') else 'minimisation'))
@@ -814,6 +854,19 @@ def _check_solved(case, it, w, viol, stats, probe, props):
         viol('C13', 'combo-optimum', 'optimum %.9g, closed form for declared partitions y:%s t:%s mask %s is %.9g'
              % (out['obj'], ex['py'], ex['pt'], ex['mask'], ex['opt']))
         return
+    if case.get('extra'):
+        stats['checks_c13'] += 1
+        probe('two_adaptive_decisions')
+        try:
+            grow, _ = _call_rows(it.env['g'], S)
+            for i in range(case['extra']['dq']):
+                if abs(float(grow[0][i]) - case['extra']['gval'][i]) > vtol:
+                    viol('C13', 'second-block-epigraph', 'g[%d]() = %.9g, closed form for the second adaptive decision (partition %s, '
+                         'mask %s) is %.9g' % (i, grow[0][i], case['extra']['pq'], case['extra']['maskq'], case['extra']['gval'][i]))
+                    return
+        except Exception as e:
+            viol('C12', 'readback-raises', 'g() raised %r after an optimal solve' % (e,), exc=type(e).__name__)
+            return
     # read-backs
     try:
         yv = it.env['y'].get()
@@ -1051,16 +1104,18 @@ def _check_solved(case, it, w, viol, stats, probe, props):
 
 
 def _objective_from_readback(case, it, S, d):
-    trow, _ = _call_rows(it.env['t'], S)
-    wts_ = None
-    for o_ in case['ops']:
-        if o_['op'] == 'obj':
-            e_ = o_['e']
-            while e_[0] in ('neg', 'E'):
-                e_ = e_[1]
-            wts_ = e_[1][1]
     pr_ = case['p'] if case['kind'] == 'combo-dro' else [1.0]
-    uo = sum(pr_[s] * sum(wts_[i] * float(trow[s][i]) for i in range(d)) for s in range(S))
+    uo = 0.0
+    for nm, w_ in case.get('obj_terms') or [['t', None]]:
+        rows, _ = _call_rows(it.env[nm], S)
+        if w_ is None:
+            for o_ in case['ops']:
+                if o_['op'] == 'obj':
+                    e_ = o_['e']
+                    while e_[0] in ('neg', 'E'):
+                        e_ = e_[1]
+                    w_ = e_[1][1]
+        uo += sum(pr_[s] * sum(w_[i] * float(rows[s][i]) for i in range(len(w_))) for s in range(S))
     return -uo if case.get('sense_max') else uo
 
 
